@@ -578,6 +578,40 @@ def gen_c12(rnd, n, thorough=False):
                     # a query with an explicit clock in the past: the server must use the client's clock
                     past = rnd.randint(1, 40)
                     lines.append("clihttpview file=s/i1/%s retention=%d from=%s until=%s now=@-%d" % (nm, arch, '@-%d' % (past + rnd.randint(0, 30)), '@-%d' % past, past))
+        # the handler on the raw query (Model/Server.v handle_view): well-formed requests in any
+        # parameter order, duplicated and missing parameters, every malformed value
+        import urllib.parse as up
+        for _ in range(rnd.randint(3, 6)):
+            nm = rnd.pick(names + ['nope.wsp'])
+            past = rnd.randint(0, 40)
+            a, b = past + rnd.randint(0, 30), past
+            params = [('file', up.quote_plus('CASEDIR/s/i1/' + nm, safe='/~')), ('retention', str(rnd.pick([-1, -1] + list(range(k)) + [k]))),
+                      ('from', 'TS(@-%d)' % a), ('until', 'TS(@-%d)' % b), ('now', 'TS(@-%d)' % rnd.pick([0, 0, past]))]
+            kind = rnd.pick(['good', 'good', 'good', 'shuffled', 'dup', 'missing', 'badvalue', 'syntax'])
+            if kind in ('shuffled', 'dup', 'missing', 'badvalue', 'syntax'):
+                rnd.shuffle(params)
+            if kind == 'dup':
+                j = rnd.randrange(len(params))
+                key = params[j][0]
+                other = {'file': 'CASEDIR/s/i2/a.wsp', 'retention': '0', 'from': 'TS(@-3)', 'until': 'TS(@-1)', 'now': 'TS(@-1)'}[key]
+                params.insert(rnd.randint(j + 1, len(params)), (key, other))       # the first one counts
+            if kind == 'missing':
+                del params[rnd.randrange(len(params))]
+            if kind == 'badvalue':
+                j = rnd.randrange(len(params))
+                key = params[j][0]
+                bad = {'file': [''], 'retention': ['', '+1', '1.5', '0x1', '99999999999999999999', '%31', '-', '1_0', '01', '-0', '9223372036854775807', '-9223372036854775809'],
+                       'from': ['', '2020-01-01', 'TS(@-5)x', '2020-13-01T00:00:00Z', '1700000000', 'TS(@-5).000', 'TS(@-5).5'],
+                       'until': ['', 'x', 'TS(@-5)Z'], 'now': ['', '0', 'now']}[key]
+                params[j] = (key, rnd.pick(bad))
+            q = '&'.join('%s=%s' % kv for kv in params)
+            if kind == 'syntax':
+                q = rnd.pick([q.replace('&', ';', 1), q + '&%zz=1', q + '&x=%', '&&' + q + '&', q + '&novalue', q.replace('=', '%3D', 1), q + '&a=b=c', q.replace('file=', 'FILE='), '', q + '&%66ile=zzz'])
+            lines.append('clirawview q=%s' % (q or '-'))
+        for _ in range(2):
+            nm = rnd.pick(names + ['sub dir/x y.wsp'.replace(' ', '_'), 'ü.wsp'])
+            lines.append('cliquerycap src=%s archive=%d from=%s until=%s' % (('i1/' + nm).encode('utf-8').hex(), rnd.pick([-1, 0, 1, 7, -5, 2 ** 40]),
+                                                                            rnd.pick(['0', '@-30', '1']), rnd.pick(['0', '@-3', '@+5'])))
         cases.append({'id': 'c12-%d' % c, 'lines': lines, 'tags': {'layout': lname}})
     # the query string itself (net/url as client and handler use it): escape, unescape, parse
     import urllib.parse
